@@ -255,6 +255,8 @@ def r19_2(ctx):
                     cf = b.fns[clo[0][1]]
                     rs = [q.ret() for q in explore(cf, max_visits=1) if q.end == 'return']
                     ok = len(rs) == 1 and is_call(rs[0], 'Fn::call') and len([a for a in walk(rs[0]) if a[0] == 'param']) >= 2
+                if not clo and len(args) == 3 and any(y[0] == 'field' and y[2] == 'value_merger' for y in walk(args[2])):
+                    ok = True           # `values.fold(first, value_merger)`: the configured merger itself is the folding function
                 ctx.check(R, ok, 'fold-applies-merger', 'each further value must be combined through the configured merger', fn=un)
     helper_fold = set()
     if n == 0:
@@ -344,6 +346,22 @@ def r19_3(ctx):
         ctx.missing(R, 'anchor:kvbatch', 'first-phase batch not found')
         return
     ded = [(f, t) for f in b.fn_list if f.path.startswith('merge::') or f.path.startswith('<merge::') for _, t in f.calls() if (f.callee(t) or '').rsplit('::', 1)[-1] in ('dedup', 'dedup_by', 'dedup_by_key')]
+
+    def merging_dedup(f, t):
+        # `kvs.dedup_by(|next, kept| { if same key { kept.1 = merger(kept.1, next.1) } same key })`: the in-place form of the merge loop -
+        # the closure compares the KEYS (.0) and applies the configured merger to the values
+        if (f.callee(t) or '').rsplit('::', 1)[-1] != 'dedup_by':
+            return False
+        kids = [g_ for g_ in b.fn_list if g_.kind == 'Closure' and g_.path.startswith(f.path + '::{closure')]
+        for g_ in kids:
+            cs = [(g_.callee(t2) or g_.callee_decl(t2) or '') for _, t2 in g_.calls()]
+            applies = any(c.endswith(('Fn::call', 'FnMut::call_mut')) for c in cs)
+            whole_rows = any('tuple::<impl' in c for c in cs)
+            keys = any(c.rsplit('::', 1)[-1] in ('eq', 'ne') for c in cs) and any(True for bid, idx, pl, how in g_.places() if any(pr == '0' or (isinstance(pr, dict) and pr.get('name') == '0') for pr in pl['proj']))
+            if applies and keys and not whole_rows and g_.local_ty(0) == 'bool':
+                return True
+        return False
+    ded = [(f, t) for f, t in ded if not merging_dedup(f, t)]
     for f, t in ded:
         ctx.violation(R, 'dedup:' + f.path, 'identical (key, value) rows are collapsed before the merger sees them: two rows a,5 in one batch count once, in two batches twice - the result depends on the batch size', fn=f, at=t.get('span'))
     ctx.check(R, not ded, 'no-dedup', 'de-duplication in the merge pipeline')
